@@ -299,6 +299,26 @@ func c12stepCases(rng *sx.Rng, n int) {
 		for k := range cs.RemainingFields {
 			beforeRem[k] = true
 		}
+		// nested ordered mappings with scalar values, as (key, value) lists
+		orderedBefore := map[string][][2]string{}
+		for k, v := range cs.RemainingFields {
+			if om, ok := v.(*ordered.MapSA); ok {
+				var l [][2]string
+				flat := true
+				om.Range(func(k2 string, v2 any) error {
+					switch v2.(type) {
+					case string, int, bool:
+						l = append(l, [2]string{k2, fmt.Sprint(v2)})
+					default:
+						flat = false
+					}
+					return nil
+				})
+				if flat {
+					orderedBefore[k] = l
+				}
+			}
+		}
 		ierr := cs.InterpolateMatrixPermutation(pipeline.MatrixPermutation(perm))
 		after, _ := json.Marshal(cs)
 		var obs sx.S = sx.L(sx.A("err"))
@@ -347,6 +367,45 @@ func c12stepCases(rng *sx.Rng, n int) {
 					if !distinct {
 						continue
 					}
+				}
+			}
+			// nested ORDERED mappings: entries are renamed in place top to bottom, a rename onto another entry's name
+			// replaces that entry (a later one is then never visited)
+			if len(perm) > 0 {
+				bad := ""
+				for fk, ref := range orderedBefore {
+					items := append([][2]string{}, ref...)
+					dead := make([]bool, len(items))
+					for i2 := range items {
+						if dead[i2] {
+							continue
+						}
+						nk, _ := c12ref(perm, items[i2][0])
+						nv, _ := c12ref(perm, items[i2][1])
+						for j := range items {
+							if j != i2 && !dead[j] && items[j][0] == nk {
+								dead[j] = true
+							}
+						}
+						items[i2] = [2]string{nk, nv}
+					}
+					var want, got []string
+					for i2, it := range items {
+						if !dead[i2] {
+							want = append(want, it[0]+"="+it[1])
+						}
+					}
+					nfk, _ := c12ref(perm, fk)
+					if om, ok := cs.RemainingFields[nfk].(*ordered.MapSA); ok {
+						om.Range(func(k string, v any) error { got = append(got, k+"="+fmt.Sprint(v)); return nil })
+					}
+					if fmt.Sprint(got) != fmt.Sprint(want) {
+						bad = fmt.Sprintf("nested mapping %q became %q, top-to-bottom renaming gives %q", fk, got, want)
+					}
+				}
+				if bad != "" {
+					oracleFail("C12", "ordered-collision", c, bad)
+					continue
 				}
 			}
 			if len(perm) > 0 && tokenFree {
